@@ -106,7 +106,8 @@ theorem C16_reset_counterexample :
     obsClosed r.2 = true ∧ r.1.tracked = ["me", "f1", "f2"] ∧ ¬ cleared r.1 := by
   decide
 
-/-! ## reconnect iff auto ∧ reason ∉ {REQUESTED, EOF} ∧ credentials ∧ not stopped -/
+/-! ## reconnect iff auto ∧ reason ∉ {REQUESTED, EOF} ∧ credentials ∧ not stopped
+(the pieces first, the single law `C16_reconnect_iff` at the end of the section) -/
 
 /-- the decision is taken when the connection closes: a requested disconnect or a server-side EOF stops the
     watchdog, every other reason leaves it as it was -/
@@ -148,6 +149,61 @@ theorem C16_reconnect_logs_in (c : Config) (st : State) (hup : st.srvUp = true) 
     (reconnect c st).2 = [.attempt, .connected, .loginSent, .sessionInit,
       .frames (burst c (envOf c st)), .loginResult .ok] ∧ (reconnect c st).1.session = true := by
   simp [reconnect, doLogin, hup, ha, hr, envOf]
+
+/-- THE reconnect law, over every history: from any reachable state with a connected server connection, when
+    the connection is lost with reason `r` and the reconnect delay (+ one poll) passes, a new connection is
+    attempted iff `reconnect.auto` ∧ `r ∉ {REQUESTED, EOF}` ∧ credentials are configured, and a new Login is sent
+    iff moreover the server accepts the connection.  (`stop()` closes with REQUESTED and is covered in full
+    strength by `C16_stop_final`; a connected state is never a stopped one.) -/
+theorem C16_reconnect_iff (c : Config) (ops : List Op) (r : Reason) :
+    let st := (run c init ops).1
+    st.conn = .connected → r ≠ .connectFailed → ((r = .eof ∨ r = .readError) → st.reader = true) →
+    let obs := (run c st (.loss r :: List.replicate (reconnectTicks + 1) .tick)).2
+    (Obs.attempt ∈ obs ↔ (c.reconnectAuto = true ∧ r ≠ .requested ∧ r ≠ .eof ∧ c.credsOk = true)) ∧
+    (Obs.loginSent ∈ obs ↔
+      (c.reconnectAuto = true ∧ r ≠ .requested ∧ r ≠ .eof ∧ c.credsOk = true ∧ st.srvUp = true)) := by
+  intro st hc hv hr obs
+  have hi : Inv st := inv_run c ops init inv_init
+  have hw : WInv c st := winv_run c ops init (winv_init c) inv_init
+  obtain ⟨k1, k2, k3, k4, k5⟩ := closeServer_connected r st hc
+  have hobs : obs = (closeServer r st).2 ++
+      (run c (closeServer r st).1 (List.replicate (reconnectTicks + 1) .tick)).2 :=
+    loss_ticks_obs c st r _ hc hv hr
+  by_cases cond : c.reconnectAuto = true ∧ r ≠ .requested ∧ r ≠ .eof ∧ c.credsOk = true
+  · obtain ⟨ha, hq, he, hk⟩ := cond
+    have hidle : (closeServer r st).1.wd = .idle := by
+      rw [k2]; simp [hq, he, hw.2 hc ha]
+    obtain ⟨s2, hs2, hs3⟩ := idle_reconnect_obs c (closeServer r st).1 hidle k1 hk
+    have hro := reconnect_obs_attempt c s2
+    rw [hobs, hs2]
+    refine ⟨?_, ?_⟩
+    · simp [ha, hq, he, hk, hro.1]
+    · simp only [List.mem_append, k5, false_or, hro.2, hs3, k3]
+      simp [ha, hq, he, hk]
+  · have hquiet : (run c (closeServer r st).1 (List.replicate (reconnectTicks + 1) .tick)).2 = [] := by
+      by_cases ha : c.reconnectAuto = true
+      · by_cases hre : r = .requested ∨ r = .eof
+        · apply off_run
+          · intro op hop; simp [List.mem_replicate] at hop; subst hop; rfl
+          · rw [k2]; simp [hre]
+        · have hk : c.credsOk = false := by
+            cases hcr : c.credsOk with
+            | false => rfl
+            | true => exact absurd ⟨ha, fun e => hre (Or.inl e), fun e => hre (Or.inr e), hcr⟩ cond
+          apply nocreds_run c hk
+          rw [k2]; simp [hre, hw.2 hc ha]
+      · have hoff : st.wd = .off := by
+          cases hwd : st.wd with
+          | off => rfl
+          | idle => exact absurd (hw.1 (by simp [hwd])) ha
+          | sleeping n => exact absurd (hw.1 (by simp [hwd])) ha
+        apply off_run
+        · intro op hop; simp [List.mem_replicate] at hop; subst hop; rfl
+        · rw [k2, hoff]; simp
+    rw [hobs, hquiet]
+    simp only [List.append_nil]
+    refine ⟨⟨fun h => absurd h k4, fun h => absurd h cond⟩,
+            ⟨fun h => absurd h k5, fun h => absurd ⟨h.1, h.2.1, h.2.2.1, h.2.2.2.1⟩ cond⟩⟩
 
 /-! ## stop is final -/
 
